@@ -10,6 +10,7 @@
  *       -x EXTRA : an undeclared input; contents appended after ';' ('!' if
  *                  missing).  -d / -i write a Makefile / dependency-info style
  *                  dependency file naming every EXTRA (-d and -i may be repeated).
+ *       -L       : every file OUT is made a symbolic link to OUT.data, which receives the payload
  *       -p       : partition: with N dependency files the k-th names only the
  *                  EXTRAs whose index is congruent to k modulo N
  *       -s       : directory inputs contribute their STRUCTURE only: '{' name ',' ... '}'
@@ -30,6 +31,7 @@
  *                fail-after       write all outputs, then exit 1
  *                kill             SIGKILL self before writing
  *                kill-after       SIGKILL self after writing outputs
+ *                delay MS         sleep MS milliseconds, then continue normally
  *                sig N            raise signal N (default disposition, no core file) before writing
  *                sig-after N      raise signal N after writing outputs
  *                need PATH        exit 1 (before writing) if PATH does not exist
@@ -209,6 +211,7 @@ static void write_file(const char* path, const char* data, size_t n) {
   stamp(path);
 }
 
+static int link_outputs = 0;
 static void write_output(const char* out, const struct buf* payload) {
   size_t l = strlen(out);
   if (l && out[l - 1] == '/') {
@@ -224,6 +227,18 @@ static void write_output(const char* out, const struct buf* payload) {
     snprintf(f, sizeof f, "%s/f", d);
     write_file(f, payload->p ? payload->p : "", payload->n);
     stamp(d);
+  } else if (link_outputs) {
+    /* -L: the payload goes to OUT.data and OUT is (re)made a symbolic link to it: reading OUT gives the payload */
+    char data[520];
+    snprintf(data, sizeof data, "%s.data", out);
+    write_file(data, payload->p ? payload->p : "", payload->n);
+    const char* base = strrchr(data, '/');
+    base = base ? base + 1 : data;
+    struct stat st;
+    if (lstat(out, &st) == 0) {
+      if (S_ISDIR(st.st_mode)) rmtree(out); else unlink(out);
+    }
+    if (symlink(base, out) != 0) die("cannot create output link", out);
   } else {
     write_file(out, payload->p ? payload->p : "", payload->n);
   }
@@ -291,6 +306,7 @@ int main(int argc, char** argv) {
     else if (!strcmp(argv[i], "-n") && i + 1 < argc) ++i;
     else if (!strcmp(argv[i], "-i") && i + 1 < argc) { if (ninfo < 4) deps_info[ninfo++] = argv[++i]; else ++i; }
     else if (!strcmp(argv[i], "-p")) partition = 1;
+    else if (!strcmp(argv[i], "-L")) link_outputs = 1;
     else if (!strcmp(argv[i], "-x") && i + 1 < argc) { if (nextra < 16) extras[nextra++] = argv[++i]; }
     else break;
   }
@@ -329,6 +345,7 @@ int main(int argc, char** argv) {
     }
     if (!strcmp(kind, "fail-after")) fail_after = 1;
     if (!strcmp(kind, "kill-after")) kill_after = 1;
+    if (!strcmp(kind, "delay")) usleep((carg ? atoi(carg) : 100) * 1000);  /* still running while other commands finish */
   }
 
   struct buf payload = {0};
